@@ -53,6 +53,9 @@ pub enum Op {
     Patch(String, u64, usize),
     /// open_stream + seek(End(0)) + write_all(n bytes) + flush
     Append(String, usize),
+    /// open_stream + seek(Start(off)) + write_all(n bytes) + (no flush, no seek) read of up to r bytes
+    /// through the same handle + flush
+    PatchRead(String, u64, usize, usize),
     /// open_stream + set_len(n)
     SetLen(String, u64),
     SetStateBits(String, u32),
@@ -385,6 +388,33 @@ pub fn exec<F: Read + Write + Seek>(comp: &mut CompoundFile<F>, op: &Op, model: 
             stream_op(comp, model, p, |s| {
                 s.seek(SeekFrom::Start(*off))?;
                 write_all_flush(s, &data)
+            }, |d| {
+                if *off > d.len() as u64 {
+                    return Err(EKind::InvalidInput);
+                }
+                let end = *off as usize + data.len();
+                if end > d.len() {
+                    d.resize(end, 0);
+                }
+                d[*off as usize..end].copy_from_slice(&data);
+                Ok(())
+            })
+        }
+        Op::PatchRead(p, off, n, r) => {
+            let data = pattern(seed_of(p, *n as u64 + off * 7919, 4), *n);
+            stream_op(comp, model, p, |s| {
+                s.seek(SeekFrom::Start(*off))?;
+                s.write_all(&data)?;
+                let mut buf = vec![0u8; *r];
+                let mut got = 0usize;
+                while got < buf.len() {
+                    let k = s.read(&mut buf[got..])?;
+                    if k == 0 {
+                        break;
+                    }
+                    got += k;
+                }
+                s.flush()
             }, |d| {
                 if *off > d.len() as u64 {
                     return Err(EKind::InvalidInput);
